@@ -100,8 +100,13 @@ def r14_2(run, model):
     def features(f):
         t = {}
         body = S.norm_ws(run.facts.text(SEP, f.body["sp"]))
-        t["reader"] = re.search(r"=read_source_files\(&opts\.package,&opts\.input_files\)\?", body) is not None
-        t["deps sorted+dedup"] = "deps.sort();deps.dedup();" in body
+        def call_args(name):
+            cs = [c for c in S.walk(f.body) if c["k"] in ("Call", "MethodCall") and S.callee_name(c) == name]
+            return [S.norm_ws(run.facts.text(SEP, a["sp"])) for a in cs[0]["args"]] if cs else None
+        t["reader"] = call_args("read_source_files")
+        deps_ops = [c["method"] for c in S.walk(f.body) if c["k"] == "MethodCall" and c["recv"]["k"] == "Path" and c["recv"]["segs"] == ["deps"]]
+        t["deps canonicalised"] = deps_ops if any(m.startswith("sort") for m in deps_ops) else None
+        t["loader"] = call_args("load_interface_from_paths")
         filt = []
         for loop in S.find(f.body, "For"):
             if not any(True for _ in S.calls(loop["body"], "load_interface_from_paths")):
